@@ -64,6 +64,11 @@ def all_cases(b):
   for s in shapes.all_shapes(ks, b['n'], 1, root_kinds=ROOTS):
     for tagv in ('none', 'tags'):
       yield s, tagv
+  # an argument whose stored value is the NO_VALUE sentinel itself
+  ks3 = [BYNAME[m] for m in ['cfg', 'par', 'cfgpos', 'list2']]
+  for s in shapes.all_shapes(ks3, 2, 1, root_kinds=ROOTS):
+    if any(sl == ('L', 0) for _, slots in s for sl in slots):
+      yield s, 'novalue'
   if b['n_small'] > b['n']:
     ks2 = [BYNAME[m] for m in b['small_menu']]
     for s in shapes.enumerate_shapes(ks2, b['n_small'], 1, root_kinds=ROOTS):
@@ -103,7 +108,8 @@ def make(shape, tagv):
     BYNAME = {k.name: k for k in shapes.std_kinds(
         [m for m in MENU if m not in ('mutdef', 'ckw', 'cann')])}
     BYNAME.update(_extra_kinds())
-  objs = shapes.materialize(shape, BYNAME, ['L1'])
+  objs = shapes.materialize(
+      shape, BYNAME, [fdl.NO_VALUE] if tagv == 'novalue' else ['L1'])
   root = objs[-1]
   if tagv == 'tags':
     names = _named(root)
